@@ -121,7 +121,7 @@ func filesCase(t *rapid.T, root string, prog *mrogen.Program) {
 	psDir := filepath.Join(dir, "ps")
 	led := filesim.New(psDir)
 	var matErr error
-	opts := simrun.Options{VdrMode: mode, StageOpts: stagefn.Opts{NullPct: rapid.SampledFrom([]int{0, 0, 5}).Draw(t, "outNullPct"), Files: true}}
+	opts := simrun.Options{VdrMode: mode, StageOpts: stagefn.Opts{NullPct: rapid.SampledFrom([]int{0, 0, 5, 25}).Draw(t, "outNullPct"), Files: true}}
 	opts.Norm = led.Norm
 	opts.OnOuts = func(j *simrun.Job, outs *jsonx.Obj) *jsonx.Obj {
 		r, err := led.Materialise(j, prog, outs)
@@ -465,6 +465,55 @@ func filesCase(t *rapid.T, root string, prog *mrogen.Program) {
 		return map[string]any{"program": stats.Trunc(src, 1200), "vdr_mode": string(mode), "jobs": len(sim.Jobs), "files_written": len(led.Order), "files_removed": removed, "schedule": stats.Trunc(strings.Join(rc.history, "; "), 400)}
 	}
 	cl := []string{"mode:" + string(mode)}
+	// forks of one call of which some wrote a file for an output parameter
+	// and others hold none there (null, a plain string, nothing written):
+	// the bookkeeping of who keeps which argument alive is per fork.
+	{
+		type key struct{ call, param string }
+		with := map[key]map[string]bool{}
+		forks := map[string]map[string]bool{}
+		for _, j := range sim.Jobs {
+			if (j.Phase == "main" || j.Phase == "join") && j.Done {
+				if forks[j.CallPath] == nil {
+					forks[j.CallPath] = map[string]bool{}
+				}
+				forks[j.CallPath][j.ForkName] = true
+			}
+		}
+		for _, e := range led.Order {
+			if e.Job == nil || e.Param == "" || !e.Written || e.Kind != "out" {
+				continue
+			}
+			for _, pn := range append([]string{e.Param}, e.AlsoIn...) {
+				k := key{e.Job.CallPath, pn}
+				if with[k] == nil {
+					with[k] = map[string]bool{}
+				}
+				with[k][e.Job.ForkName] = true
+			}
+		}
+		mixed, mixedDyn := false, false
+		for k, w := range with {
+			if n := len(forks[k.call]); n >= 2 && len(w) < n {
+				mixed = true
+				if c, _ := resolveCall(prog, k.call); c != nil {
+					for _, b := range c.Bindings {
+						if sp, ok := b.E.(mrogen.Split); ok {
+							if r, ok := sp.E.(mrogen.Ref); ok && r.Call != "" {
+								mixedDyn = true
+							}
+						}
+					}
+				}
+			}
+		}
+		if mixed {
+			cl = append(cl, "forks-mixed-file-presence")
+		}
+		if mixedDyn {
+			cl = append(cl, "dynamic-forks-mixed-file-presence")
+		}
+	}
 	if only("C04") {
 		c := append([]string{}, cl...)
 		if filesInArgs > 0 {
